@@ -18,8 +18,8 @@ META = {
     "text": "Lean theorems, for splitters of any size: a one-element list/tuple has the normal form and RPN of its element "
     "(C05_singleton), the normal form is compositional in every list position (C05_context), and spellings with the same normal "
     "form give the same RPN, states, job inputs, grouping and errors for all inputs (C05_same_normal_form); nested outer (inner) "
-    "chains re-bracket freely in the reference (C05_rebracket_outer / _inner), which transfers to the model for KeysOK trees, in "
-    "particular all trees with <= 4 fields (C05_rebracket_model, C05_rebracket_le4, via C01).  Task.split raises exactly for the "
+    "chains re-bracket freely in the reference (C05_rebracket_outer / _inner), which transfers to the model for ALL trees "
+    "(C05_rebracket_model, C05_rebracket_outer_model, C05_rebracket_inner_model, via C01).  Task.split raises exactly for the "
     "ill-formed requests — field twice, splitter field without value, value for a field not in the splitter, overwrite, "
     "container_ndim for an unsplit field (ValueError), non-sequence value / unknown input (TypeError) — C05_reject_iff; "
     "Task.combine / Submitter / State.combiner_validation reject exactly a combiner that is overwritten, names no task input, has "
@@ -49,7 +49,8 @@ OBLIGATIONS = [
         "C05_rebracket_outer",
         "C05_rebracket_inner",
         "C05_rebracket_model",
-        "C05_rebracket_le4",
+        "C05_rebracket_outer_model",
+        "C05_rebracket_inner_model",
         "C05_reject_iff",
         "C05_combine_reject_iff",
         "C05_before_jobs",
@@ -307,7 +308,7 @@ def correspondence(ctx):
         ctx.count(f"{level}:pair:fields={nf}")
         case = {"a": a, "b": b, "level": level, "rewrites": labs}
         differs = a["splitter"] != b["splitter"]
-        if nf <= 4:
+        if nf <= 6:  # all trees are gated since the repair of D1
             ctx.judge(case, [oa, ob], model, oa == ob, nontrivial=differs and nf >= 2, key=json.dumps([a["splitter"], b["splitter"], level, [len(v) for _, v, _ in a["fields"]]]), what="C05 equivalent spellings")
         else:
             ctx.count("outside-quantifier")
